@@ -63,11 +63,12 @@ Alloc(used, tx, hint) ==
   ELSE CHOOSE i \in 0..(Cardinality(used) + Cardinality(DOMAIN hint)) :
          /\ i \notin used /\ i \notin Range(hint)
          /\ \A j \in 0..(i - 1) : j \in used \/ j \in Range(hint)
-StorePut(store, id, v) == [i \in DOMAIN store \cup {id} |-> IF i = id THEN v ELSE store[i]]
+(* (TLCEval: functions stored in state variables are evaluated eagerly; TLC cannot spill lazy ones to disk) *)
+StorePut(store, id, v) == TLCEval([i \in DOMAIN store \cup {id} |-> IF i = id THEN v ELSE store[i]])
 (* store.Put never returns the id of a live entry: a branch that would need that (wrong guess of a   *)
 (* Go map iteration order against the observed ids) is marked bad and discarded by the actions        *)
 PutNew(p, id, v) == IF id \in DOMAIN p.store THEN [p EXCEPT !.bad = TRUE] ELSE [p EXCEPT !.store = StorePut(@, id, v)]
-StoreDel(store, ids)   == [i \in DOMAIN store \ ids |-> store[i]]
+StoreDel(store, ids)   == TLCEval([i \in DOMAIN store \ ids |-> store[i]])
 
 (* ------------------------------ eviction thresholds and priorities ------------------------------ *)
 (* running minima along the nonce chain (the eviction fields of blobTxMeta) *)
@@ -247,7 +248,7 @@ ResetS(p, B, old, new, fin, hint) ==
 TipFilter(p, t) ==
   LET Keep(s) == LET bad == {i \in DOMAIN s : s[i].tx.tip < t} IN
                  IF bad = {} THEN s ELSE SubSeq(s, 1, (CHOOSE i \in bad : \A j \in bad : i <= j) - 1)
-      idx2 == [a \in Accts |-> Keep(p.idx[a])]
+      idx2 == TLCEval([a \in Accts |-> Keep(p.idx[a])])
   IN [p EXCEPT !.idx = idx2, !.tip = t,
                !.store = StoreDel(@, {e.id : e \in AllEntries(p.idx)} \ {e.id : e \in AllEntries(idx2)})]
 
@@ -275,14 +276,14 @@ LimboPickS(L, S, hint) ==
                          {y \in S : y.tx # t}, hint) : x \in {x \in S : x.tx = t}}
 
 OpenS(p, dtxs, ldisk, hint) ==
-  LET e0 == [p EXCEPT !.idx = [a \in Accts |-> <<>>], !.store = <<>>, !.limbo = {}]
+  LET e0 == [p EXCEPT !.idx = TLCEval([a \in Accts |-> <<>>]), !.store = <<>>, !.limbo = {}]
       p1 == TrackAll(e0, dtxs, hint)
   IN UNION {UNION {DropWhileS([TipFilter(q, p.tip) EXCEPT !.limbo = L]) : L \in LimboPickS({}, ldisk, hint)}
             : q \in RecheckAllS(p1, CHOOSE s \in Perms(Accts) : TRUE)}
 
 (* ------------------------------ the actions ------------------------------ *)
 InitPool(st, bfj, blj) ==
-  [idx |-> [a \in Accts |-> <<>>], store |-> <<>>, limbo |-> {}, tip |-> 1, hbf |-> bfj, hbl |-> blj, st |-> st, bad |-> FALSE]
+  [idx |-> TLCEval([a \in Accts |-> <<>>]), store |-> <<>>, limbo |-> {}, tip |-> 1, hbf |-> bfj, hbl |-> blj, st |-> st, bad |-> FALSE]
 
 (* the retention obligation: pooled transactions the new canonical branch includes above finality;   *)
 (* obligations end with finality or when the transaction is reorged out again                         *)
